@@ -75,15 +75,16 @@ type GhostVar struct {
 
 // AtCall: ghost update performed right after the n-th call (source order) of a callee whose name ends with Callee
 type AtCall struct {
-	Assume bool // assumed (unchecked, reported) instead of proved
-	Text   string
-	Hint   bool // proved (then assumed) right before the call instead of a ghost update after it
-	Props  []string
-	Callee string
-	N      int
-	Var    string
-	Expr   *Spec
-	Line   int
+	Optional bool // the anchor may be absent (no such call): the update is then skipped
+	Assume   bool // assumed (unchecked, reported) instead of proved
+	Text     string
+	Hint     bool // proved (then assumed) right before the call instead of a ghost update after it
+	Props    []string
+	Callee   string
+	N        int
+	Var      string
+	Expr     *Spec
+	Line     int
 }
 
 type PureDef struct {
@@ -111,7 +112,7 @@ type GhostField struct{ Type, Field, Sort string }
 var reClause = regexp.MustCompile(`^(requires|ensures|modifies|decreases|trusted|nilable|hint|assume|preserves|unreachable-returns|opaque|exit|apply)(\[[A-Z0-9,]+\])?\s*(.*)$`)
 var reLoop = regexp.MustCompile(`^loop\s+(\d+)\s+(invariant|decreases|modifies|hint|apply)(\[[A-Z0-9,]+\])?\s+(.*)$`)
 var reGhostVar = regexp.MustCompile(`^ghost\s+var\s+([A-Za-z_][A-Za-z0-9_]*)\s+(int|bool)\s*=\s*(.*)$`)
-var reAtCall = regexp.MustCompile(`^at\s+call\s+([A-Za-z0-9_./()*]+)#(\d+)\s+ghost\s+([A-Za-z_][A-Za-z0-9_]*)\s*:=\s*(.*)$`)
+var reAtCall = regexp.MustCompile(`^at\s+call\??\s+([A-Za-z0-9_./()*]+)#(\d+)\s+ghost\s+([A-Za-z_][A-Za-z0-9_]*)\s*:=\s*(.*)$`)
 var reAtCallHint = regexp.MustCompile(`^at\s+call\s+([A-Za-z0-9_./()*]+)#(\d+)\s+(?:hint|assume)(\[[A-Z0-9,]+\])?\s+(.*)$`)
 var rePure = regexp.MustCompile(`^(?:pure|arith)\s+([A-Za-z_][A-Za-z0-9_]*)\s*\(([^)]*)\)\s*:\s*([A-Za-z0-9_\[\]\*\.]+)\s*=\s*(.*)$`)
 var reGhost = regexp.MustCompile(`^ghost\s+field\s+([A-Za-z_][A-Za-z0-9_]*)\.([A-Za-z_][A-Za-z0-9_]*)\s*:\s*(.*)$`)
@@ -254,7 +255,7 @@ func parseContractFile(path string) (*ContractFile, error) {
 				if err != nil {
 					return nil, fail(err)
 				}
-				cur.AtCalls = append(cur.AtCalls, AtCall{Callee: m[1], N: n, Var: m[3], Expr: e, Line: l.line})
+				cur.AtCalls = append(cur.AtCalls, AtCall{Callee: m[1], N: n, Var: m[3], Expr: e, Line: l.line, Optional: strings.HasPrefix(t, "at call?")})
 				continue
 			}
 			if m := reLoop.FindStringSubmatch(t); m != nil {
